@@ -91,7 +91,7 @@ CHECKS = {
 SESSION2 = {
     'C01': 'rule C01.P (E9r, sa/progsim.py): parse_script and then execute_script with the statement loop, _script_function, evaluate_expression and the library functions called - the whole pipeline - evaluated by the abstract interpreter on 25 hand-written and 90 (quick) / 400 (thorough) grammar-generated structured programs x initial globals of every plain value type; return value, log sequence and final globals compared with a structured big-step reading of the source text (sa/barefront.py trees; the known while/continue finding identified exactly by a second reading); shared evaluation C10.L (E6p): parse_script evaluated on layout variants of programs covering every block form; absolute expectations for the loop / branch lowering (a `continue` in a while re-tests the condition, a for-loop continue advances the index) stated from the language definition',
     'C02': "rule C02.C: parse_expression's AST evaluated by the abstract interpreter on an enumerated list of concrete expression texts (precedence pairs of every operator, unary chains, groups, calls, literals of every kind incl. plus-signed and hex numbers, trailing text); the returned models are compared node by node with the trees of an independently written precedence-climbing front-end (sa/barefront.py), error positions with the first unmatched character; the regex-automaton and table rules remain for the token classes",
-    'C08': 'shared rule C01.P (E9r whole parsed programs: a function statement binds when it executes, also again under another body; return; jumps stay in their list); E6s: the statement loop evaluated on curated models with duplicate labels in one scope and in different scopes under the schedule (taken, taken, not taken): the first definition in the executing scope is the target every time (lru_cache / dict memoisation modelled, unknown decorators undecided); counter shape read-back shared with C09',
+    'C08': 'rule C08.F (E9r): execute_script evaluated on hand-built jump-level models with user labels (a function name bound again under another body, functions sharing label names with each other and the top level, duplicate labels skipped / passed by fall-through, nested loops over one label name, a jump to a label of the caller) against the documented statement semantics (reference executor over schema models), model unchanged, second run identical; shared C09.B budget sweeps; shared rule C01.P (E9r whole parsed programs: a function statement binds when it executes, also again under another body; return; jumps stay in their list); E6s: the statement loop evaluated on curated models with duplicate labels in one scope and in different scopes under the schedule (taken, taken, not taken): the first definition in the executing scope is the target every time (lru_cache / dict memoisation modelled, unknown decorators undecided); counter shape read-back shared with C09',
     'C03': 'E6e evaluation of evaluate_expression on every ordered pair of 14 sample operands of every value type x 6 arithmetic operators and unary - / ! against the language definition (C03.T), undefined callee with effectful arguments; shared evaluations: value_string on numbers (C13), datetime arithmetic / ISO text under fixed-offset zones (C16, E6d), relational operators on 32x32 concrete values (C11.S)',
     'C04': 'shared rule C01.P (E9r whole-program evaluation: locals / globals, parameter binding, functions as values, a local hiding a global in call position, tabs in parameter lists); execute_script evaluated on an empty script with caller globals binding a library name to a host function / to null (C04.I); parse_script evaluated on layout variants of function headers (C10.L, E6p)',
     'C05': 'shared evaluations C03.T (operator table on all operand type pairs: no host exception) and C17.U (url helpers); escape analysis extended by implicit __str__/__repr__ calls when a caught exception is formatted and by with-statements (contextlib.suppress decided, swallowing context managers undecided); dataParseCSV evaluated on ragged texts with csv.reader / DictReader as exact host models (C05.K)',
@@ -103,12 +103,12 @@ SESSION2 = {
     'C12': 'value_args_validate evaluated on an integer parameter with numbers spelled both ways; bit operators as integer-only sinks; shared evaluations that run every number as host int and as float: C15.R (E6c library reference models), C16.M (datetimeNew), C14.R (jsonStringify indent), C13.D (value_string on 5 and 5.0 ...)',
     'C13': 'parse_expression(value_string(x)) evaluated on 45 non-negative numbers incl. integral doubles around 2**53 (C13.L); value_string evaluated on 44 sample numbers (ints, integral / fractional floats, exponent forms, booleans, non-finite) - text converts back to the number, integral numbers print as integer digits, never raises - and value_parse_number on 23 concrete texts (printed forms, NaN / infinity spellings, overflowing digit strings, malformed text); host str()/float()/regex semantics on concrete values',
     'C14': 'E6l: jsonStringify (no indent, indent 2, indent 3.0) and jsonParse evaluated on 190 JSON values whose strings / keys contain . 0 , ] } " \\ / newline, control and non-BMP characters, trailing backslashes and newlines - valid JSON denoting the value, sorted keys, no fraction on integral numbers, no collisions, parse inverts (C14.R); strings with an escaped quote before ,] / ,}; one container occurring several times; json encoder / json.loads (incl. parse_int / parse_float / object_hook callbacks) as exact host models on concrete values',
-    'C15': 'call history: a fresh container result changed by the caller, the same call again must give a new object with the documented contents (memoisation); E6c (sa/libref.py): 42 array / object / string / regexEscape / urlEncode functions evaluated through the repository\'s own value_args_validate on ~5500 argument lists (every container / string template x indices -2..len+2 as float and as host int; wrong type in each position, missing, surplus) against reference list / dict / str models written from the $doc lines: result, identity vs freshness (shallow), post-call state of every argument, documented failure value (C15.R)',
+    'C15': 'regexSplit(regexNew(p), text) evaluated against the host split (empty parts kept); call history: a fresh container result changed by the caller, the same call again must give a new object with the documented contents (memoisation); E6c (sa/libref.py): 42 array / object / string / regexEscape / urlEncode functions evaluated through the repository\'s own value_args_validate on ~5500 argument lists (every container / string template x indices -2..len+2 as float and as host int; wrong type in each position, missing, surplus) against reference list / dict / str models written from the $doc lines: result, identity vs freshness (shallow), post-call state of every argument, documented failure value (C15.R)',
     'C16': 'E6d (sa/hostdt.py, sa/dtsim.py): value_normalize_datetime, value_string, value_parse_datetime, the getters and datetime + / - evaluated on naive / aware / date values with sub-millisecond parts under four (six thorough) fixed-offset local zones, the datetime module as an exact host model (C16.N/I/G/E); datetimeNew evaluated on 1704 (8456 thorough) component lists, int and float spellings, against proleptic-Gregorian ordinal arithmetic (C16.M). Zones with DST rules (America/New_York, Australia/Lord_Howe; thorough also Europe/London, Pacific/Chatham) are taken from the host zoneinfo database when it is installed, with sample datetimes around every offset change of 2024 that exist exactly once; astimezone() without argument returns a fixed-offset tzinfo as CPython does',
     'C17': 'url_file_relative evaluated on 70 (including file, reference) pairs (posixpath / PurePosixPath / urljoin as exact host models), parse_script evaluated on quoted / system include lines (E6p), _fetch_include evaluated on 7 requests with importlib.resources as an opaque host object',
     'C18': 'E6n (sa/lintsim.py): lint_script evaluated on 10 jump-level models (user / duplicate / dangling labels, duplicate functions / arguments, names equal to schema member names, empty names, calls at every expression position), a structured program lowered by the evaluated parse_script and the shipped includes, three times each (again; other iteration order of unordered collections): never raises, model unchanged, deterministic, label / function / argument / unused / pointless warnings = facts of the model (C18.R)',
-    'C19': 'shared evaluations: dataParseCSV on ragged texts (C05.K), data expression helpers with a counting oracle (C09.I); aggregate measures with float samples (equal non-dyadic values, large mean with small spread)',
-    'C20': 'E9x (sa/baresim.py): the shipped diffLines (text of include/diff.bare, parsed by sa/barefront.py) evaluated by a reference evaluator of the structured language with the library reference models of E6c as builtins on all pairs of line lists up to length 4 over {a, b} (quick; length 5 over three letters thorough), LF / CRLF texts: blocks reconstruct both inputs (C20.B); lint_script evaluated on the parsed includes: lint-clean (C18.R)',
+    'C19': 'rule C19.V primary: typed tables (numbers incl. 0 and 1e21, booleans, datetimes, strings with quoted commas / quotes and date-like invalid text, nulls) written as CSV and read back with dataParseCSV, evaluated with validate_data and the value parsers; shared evaluations: dataParseCSV on ragged texts (C05.K), data expression helpers with a counting oracle (C09.I); aggregate measures with float samples (equal non-dyadic values, large mean with small spread)',
+    'C20': 'shared evaluations of the library functions diffLines relies on (C15.R incl. regexSplit with empty lines) and of label lookup per statement list (C08.F); E9x (sa/baresim.py): the shipped diffLines (text of include/diff.bare, parsed by sa/barefront.py) evaluated by a reference evaluator of the structured language with the library reference models of E6c as builtins on all pairs of line lists up to length 4 over {a, b} (quick; length 5 over three letters thorough), LF / CRLF texts: blocks reconstruct both inputs (C20.B); lint_script evaluated on the parsed includes: lint-clean (C18.R)',
 }
 
 NOT_YET = {}
